@@ -48,7 +48,15 @@ pub enum TSpec {
     Group { cont: ContKind, members: Vec<TSpec> },
     /// a collection built with the unchecked-at-runtime constructors (`new` / `new_ref` /
     /// `From<&L>`) over shared owned data `datas[data]` (a container of `&mut` leaves)
-    OnData { data: usize, kind: CollKind, from: bool, poison: bool },
+    OnData {
+        data: usize,
+        kind: CollKind,
+        from: bool,
+        poison: bool,
+        /// built with the public `unsafe fn new_unchecked` (sound here: owned data has no duplicates)
+        #[serde(default)]
+        unchecked: bool,
+    },
     /// a collection whose child is a plain `Vec<&Leaf>` / `Box<[&Leaf]>` of the library's own
     /// impls (its guard is the library's guard for slices, not a harness container); top level only
     Slice { kind: CollKind, boxed: bool, members: Vec<Lid>, poison: bool },
